@@ -11,9 +11,9 @@ import (
 
 func init() {
 	register(&Rule{
-		ID: "C17",
+		ID:      "C17",
 		Explain: "Decides member-event coalescing structurally, as a sibling rule over every implementation of the coalescer interface: each map field that Coalesce writes (the pending state) is reset on every path of Flush, so a flush reports nothing for members without a new event since the previous flush; pending state is keyed by member name and Flush appends exactly one entry per key; an entry is skipped exactly when the member was reported before with the same kind and the kind is not an update, and the last-reported kind is recorded on every emit path.",
-		Run: runC17,
+		Run:     runC17,
 		Mutants: []Mutant{
 			{Name: "member-pending-never-reset", File: "serf/coalesce_member.go", Func: "func (c *memberEventCoalescer) Flush(", Old: "\tc.latestEvents = make(map[string]coalesceEvent)\n", New: "", Expect: "R1"},
 			{Name: "user-pending-never-reset", File: "serf/coalesce_user.go", Func: "func (c *userEventCoalescer) Flush(", Old: "\tc.events = make(map[string]*latestUserEvents)\n", New: "", Expect: "R1"},
@@ -25,9 +25,9 @@ func init() {
 		},
 	})
 	register(&Rule{
-		ID: "C18",
+		ID:      "C18",
 		Explain: "Decides user-event coalescing structurally: in Coalesce the per-name entry is replaced exactly when absent or strictly older than the new event and the event is appended exactly on equal time (older events write nothing); Flush emits every stored event of every entry in slice order and then resets the map; Handle is true exactly for UserEvent values with Coalesce set; in the coalesce loop an unhandled event is forwarded before the next receive and never passed to Coalesce.",
-		Run: runC18,
+		Run:     runC18,
 		Mutants: []Mutant{
 			{Name: "replace-on-equal", File: "serf/coalesce_user.go", Func: "func (c *userEventCoalescer) Coalesce(", Old: "if !ok || latest.LTime < user.LTime {", New: "if !ok || latest.LTime <= user.LTime {", Expect: "R1"},
 			{Name: "append-older", File: "serf/coalesce_user.go", Func: "func (c *userEventCoalescer) Coalesce(", Old: "if latest.LTime == user.LTime {", New: "if latest.LTime >= user.LTime {", Expect: "R1"},
@@ -291,7 +291,10 @@ func runC18(c *an.Ctx) {
 				to := e.To()
 				ok := len(to.Instrs) > 0
 				if ok {
-					r := an.ReachFromBlock(co, to, &an.Cut{Instrs: func(in ssa.Instruction) bool { mu, ok := in.(*ssa.MapUpdate); return ok && an.Path(mu.Map) == "$0.events" }}, an.IsExit)
+					r := an.ReachFromBlock(co, to, &an.Cut{Instrs: func(in ssa.Instruction) bool {
+						mu, ok := in.(*ssa.MapUpdate)
+						return ok && an.Path(mu.Map) == "$0.events"
+					}}, an.IsExit)
 					ok = r == nil
 				}
 				c.Add(ok, "R1", "Coalesce:replaces-when:"+nm, co, "when the entry is "+nm+" it is replaced on every path", "must-pass from the edge")
@@ -377,4 +380,3 @@ func runC18(c *an.Ctx) {
 		}
 	}
 }
-
